@@ -94,6 +94,23 @@ fn mutations(base: &[Vec<u8>], rng: &mut Rng) -> Vec<Vec<u8>> {
     }
     out
 }
+
+/// size classes: the templates with pushes far beyond key / hash size (script sizes around 1059/1060 and 2^16), and
+/// OP_RETURN texts beyond 64 KiB whose multi-byte characters straddle byte 65536
+fn size_class_scripts(rng: &mut Rng) -> Vec<Vec<u8>> {
+    let mut t: Vec<Vec<u8>> = vec![];
+    for (k, len) in [(1usize, 1053usize), (1, 1054), (3, 400), (2, 5000), (1, 65_536)] {
+        let mut s = vec![0x51]; for _ in 0..k { s.extend(push(&rng.bytes(len), if len > 65_535 { 3 } else { 2 })); } s.push(0x50 + k as u8); s.push(0xae); t.push(s); }
+    let mut straddle = vec![0x61u8; 65_535]; straddle.extend_from_slice(&[0xc3, 0xa9, 0x62]);
+    t.push([vec![0x6a], push(&straddle, 3)].concat());
+    let mut aligned = vec![0x61u8; 65_534]; aligned.extend_from_slice(&[0xc3, 0xa9, 0x62, 0x63]);
+    t.push([vec![0x6a], push(&aligned, 3)].concat());
+    t.push([vec![0x6a], push(&vec![0xffu8; 30_000], 2)].concat());
+    t.push([vec![0x6a], push(&vec![0x41u8; 65_535], 2)].concat());
+    for tail in [&b"record\0"[..], &[0x00][..], &[0, 0, 0, 0][..], &b"\0lead"[..], &b" pad  "[..], &b"line\n"[..]] { for f in forms_for(tail.len()) { t.push([vec![0x6a], push(tail, f)].concat()); } }
+    t
+}
+fn short(s: &[u8]) -> String { if s.len() > 200 { format!("{}..({} bytes)", hex(&s[..40]), s.len()) } else { hex(s) } }
 fn base_catalogue(salt: u64) -> Vec<Vec<u8>> {
     let mut rng = Rng::new(salt);
     let t = template_scripts(&mut rng);
@@ -109,6 +126,7 @@ fn base_catalogue(salt: u64) -> Vec<Vec<u8>> {
     all.push(vec![0x76, 0xa9, 0x00, 0x88, 0xac]); all.push(vec![0x76, 0xa9, 0x4c, 0x00, 0x88, 0xac]); all.push(vec![0x6a, 0x4c, 0x00]); all.push(vec![0x6a, 0x00]);
     all.push(vec![0x6a, 0x4e, 0xff, 0xff, 0xff, 0xff, 0x41]); all.push(vec![0x4e, 0xff, 0xff, 0xff, 0x7f]); all.push(vec![0x4d, 0xff, 0xff]);
     for _ in 0..(if thorough { 3000 } else { 300 }) { let n = rng.below(60) as usize; all.push(rng.bytes(n)); }
+    all.extend(size_class_scripts(&mut rng));
     all
 }
 
@@ -124,9 +142,9 @@ fn c06_fork_scripts_match_reference() {
         for s in &cat {
             cases += 1;
             let (wt, wa, wp) = ref_fork(s, ver);
-            let r = match std::panic::catch_unwind(|| eval_from_bytes(s, ver)) { Ok(r) => r, Err(_) => { fail(suite, "C06,C14:evaluation_never_panics", &format!("{} {}", coin, hex(s)), "panic", "a result"); continue; } };
+            let r = match std::panic::catch_unwind(|| eval_from_bytes(s, ver)) { Ok(r) => r, Err(_) => { fail(suite, "C06,C14:evaluation_never_panics", &format!("{} {}", coin, short(s)), "panic", "a result"); continue; } };
             let gt = format!("{}", r.pattern);
-            let inp = format!("{} script={}", coin, hex(s));
+            let inp = format!("{} script={}", coin, short(s));
             let c = if wt == "OpReturn" || gt == "OpReturn" { "C06,C16:typed_by_template" } else { "C06:typed_by_template" };
             if !check(gt == wt, suite, c, &inp, &gt, &wt) { continue; }
             check(r.address == wa, suite, "C06:address_is_base58check_of_version_and_payload", &inp, &format!("{:?}", r.address), &format!("{:?}", wa));
@@ -219,6 +237,7 @@ fn btc_catalogue() -> Vec<Vec<u8>> {
     for op in 0..=255u8 { t.push(vec![op]); let n = rng.below(40) as usize; let mut v = vec![op]; v.extend(rng.bytes(n)); t.push(v); }
     for _ in 0..(if thorough { 3000 } else { 300 }) { let n = rng.below(70) as usize; t.push(rng.bytes(n)); }
     t.push(rng.bytes(10_500));
+    t.extend(size_class_scripts(&mut rng));
     t
 }
 /// C05/C16/C14 (bounded: the catalogue above x {bitcoin, testnet3}): type, address and single-push payload equal the reference
@@ -231,7 +250,7 @@ fn c05_bitcoin_scripts_match_reference() {
         for s in &cat {
             cases += 1;
             let (wt, wa, wp) = ref_btc(s, ver);
-            let r = match std::panic::catch_unwind(|| eval_from_bytes(s, ver)) { Ok(r) => r, Err(_) => { fail(suite, "C05,C14:evaluation_never_panics", &format!("ver={:#x} {}", ver, hex(s)), "panic", "a result"); continue; } };
+            let r = match std::panic::catch_unwind(|| eval_from_bytes(s, ver)) { Ok(r) => r, Err(_) => { fail(suite, "C05,C14:evaluation_never_panics", &format!("ver={:#x} {}", ver, short(s)), "panic", "a result"); continue; } };
             let gt = format!("{}", r.pattern);
             let inp = format!("version_id={:#x} script={}", ver, if s.len() > 200 { format!("{}..({} bytes)", hex(&s[..40]), s.len()) } else { hex(s) });
             let c = if wt == "NotRecognised" && gt == "Pay2MultiSig" && multisig_with_non_numeric_n(s) { "C05:script_type_equals_reference/multisig_with_non_numeric_n" }
